@@ -492,6 +492,65 @@ func CheckAccounting(ssn *framework.Session, whole bool, twins Twins) []Discrepa
 			}
 		}
 	}
+	// DRA: a device belongs to at most one claim; what an allocated task remembers about its claims is what the
+	// DRA manager holds for them
+	if k8sPlugins := ssn.InternalK8sPlugins(); k8sPlugins != nil && k8sPlugins.FrameworkHandle != nil && k8sPlugins.FrameworkHandle.SharedDRAManager() != nil {
+		mgr := k8sPlugins.FrameworkHandle.SharedDRAManager()
+		if cl, err := mgr.ResourceClaims().List(); err == nil && len(cl) > 0 {
+			owner := map[string]string{}
+			byName := map[string][]string{}
+			names := make([]string, 0, len(cl))
+			for _, c := range cl {
+				names = append(names, c.Namespace+"/"+c.Name)
+			}
+			sort.Strings(names)
+			for _, c := range cl {
+				if c.Status.Allocation == nil {
+					continue
+				}
+				var devs []string
+				for _, r := range c.Status.Allocation.Devices.Results {
+					d := r.Driver + "/" + r.Pool + "/" + r.Device
+					devs = append(devs, d)
+					if other, taken := owner[d]; taken && other != c.Name {
+						a, b := other, c.Name
+						if a > b {
+							a, b = b, a
+						}
+						add("dra-device-in-two-claims", "device %s is allocated to claim %s and to claim %s", d, a, b)
+					}
+					owner[d] = c.Name
+				}
+				sort.Strings(devs)
+				byName[c.Name] = devs
+			}
+			for _, job := range ssn.ClusterInfo.PodGroupInfos {
+				for _, t := range job.GetAllPodsMap() {
+					if !pod_status.IsActiveAllocatedStatus(t.Status) || t.Pod == nil {
+						continue
+					}
+					for _, pc := range t.Pod.Spec.ResourceClaims {
+						info := t.ResourceClaimInfo[pc.Name]
+						if info == nil || info.Allocation == nil || pc.ResourceClaimName == nil {
+							continue
+						}
+						var mine []string
+						for _, r := range info.Allocation.Devices.Results {
+							mine = append(mine, r.Driver+"/"+r.Pool+"/"+r.Device)
+						}
+						sort.Strings(mine)
+						held, allocated := byName[*pc.ResourceClaimName]
+						if !allocated {
+							continue // allocation in flight in a BindRequest: not on the claim object
+						}
+						if strings.Join(mine, ",") != strings.Join(held, ",") {
+							add("dra-task-and-manager-disagree", "task %s (%v) remembers devices %v for claim %s, the DRA manager holds %v", t.Name, t.Status, mine, *pc.ResourceClaimName, held)
+						}
+					}
+				}
+			}
+		}
+	}
 	return out
 }
 
